@@ -90,6 +90,14 @@ STATEMENTS = [
     'set "M" set "Nobody" row 0 set "Nobody" row 0',
     'set group "G2" set group "NoGroup" set group "NoGroup"',
     'get "A" get "Nobody" get "Nobody" ' + COLOUR.format(80),
+    # rows, columns and zones far beyond anything a device has, aimed at
+    # lights that have none at all
+    'set "A" row 20', 'set "A" row 300 column 2', 'set "Nobody" row 1000',
+    'set "B" begin stage row 400 column 0 999 end', 'set "Z" row 70000',
+    'set "A" zone 500', 'set "M" zone 100000', 'set "Nobody" zone 70000',
+    'repeat in group "NoGroup" as y begin set y end',
+    'repeat in group "NoGroup" and "A" as y begin on y end',
+    'repeat in location "NoLoc" and location "P2" as y begin on y end',
 ]
 
 
@@ -118,6 +126,16 @@ STRIPPED = {
         ('set group "G2"', ()),
     'get "A" get "Nobody" get "Nobody" ' + COLOUR.format(80):
         ('get "A" ' + COLOUR.format(80), ()),
+    'set "A" row 20': ('', ('A',)), 'set "A" row 300 column 2': ('', ('A',)),
+    'set "Nobody" row 1000': ('', ()),
+    'set "B" begin stage row 400 column 0 999 end': ('', ('B',)),
+    'set "Z" row 70000': ('', ('Z',)), 'set "A" zone 500': ('', ('A',)),
+    'set "M" zone 100000': ('', ('M',)), 'set "Nobody" zone 70000': ('', ()),
+    'repeat in group "NoGroup" as y begin set y end': ('', ()),
+    'repeat in group "NoGroup" and "A" as y begin on y end':
+        ('repeat in "A" as y begin on y end', ()),
+    'repeat in location "NoLoc" and location "P2" as y begin on y end':
+        ('repeat in location "P2" as y begin on y end', ()),
 }
 assert all(k in STATEMENTS for k in STRIPPED)
 
